@@ -92,6 +92,14 @@ def is_trace_preserving(
     # If the variable `phi` is provided as a list, we assume this is a list
     # of Kraus operators.
     if isinstance(phi, list):
+        # A completely positive map may be given as [K1, ..., Kr], [[K1], ..., [Kr]] or [[K1, ..., Kr]] (r > 2):
+        # read these as pairs with equal left and right operators.
+        if isinstance(phi[0], np.ndarray):
+            phi = [[k_op, k_op] for k_op in phi]
+        elif len(phi[0]) == 1:
+            phi = [[k_op[0], k_op[0]] for k_op in phi]
+        elif len(phi) == 1 and len(phi[0]) > 2:
+            phi = [[k_op, k_op] for k_op in phi[0]]
         phi_l = [A for A, _ in phi]
         phi_r = [B for _, B in phi]
 
